@@ -117,6 +117,48 @@ func runC01(r *Run) {
 	detLocalTime(r, sc, S)
 	r.Rule("R12", "OWN.shared-memory-through-aliases: (a) in consensus scope the receiver of a mutating math/big.Int / uint256.Int method never aliases a pointer held by a package-level variable of any package (common.Big1 and the like) — followed through phis, locals, big.Int's receiver-returning methods, functions that return a parameter, and math.BigMax/BigMin; (b) every package-level slice of a Haqq package that is used as the first argument of append has an initialiser with len == cap (composite literal, constant conversion, make(n, n)) — with spare capacity the append writes the one backing array that block execution and concurrent queries share")
 	detSharedAliasWrites(r, sc, S, "R12")
+	r.Rule("R13", "PATH.optional-recipient-dereferenced-under-guard: the tabled observer sites of R8 (the node-local evm.tracer selects the logger handed to the interpreter) are 'observers' only as long as they cannot fail: a panic in one of them is recovered per transaction by BaseApp, so only the node with that setting reports the transaction as failed. In consensus scope the result of a message's To() — nil for a contract creation — is dereferenced only over the non-nil edge of a comparison of To() with nil (the access-list tracer was built with *msg.To() unconditionally: every contract creation failed on nodes configured with it)")
+	{
+		nD := 0
+		for _, fn := range S {
+			if isGeneratedFile(P.FileOf(fnPos(fn))) {
+				continue
+			}
+			isTo := func(v ssa.Value) (ssa.Value, bool) {
+				c, ok := stripValue(v).(*ssa.Call)
+				if !ok || callInfo(c).Name != "To" {
+					return nil, false
+				}
+				if pt, ok := c.Type().Underlying().(*types.Pointer); !ok || namedName(pt.Elem()) != "Address" {
+					return nil, false
+				}
+				a := callArgs(c)
+				if len(a) == 0 {
+					return nil, true
+				}
+				return stripValue(a[0]), true
+			}
+			eachInstr(fn, func(in ssa.Instruction) {
+				u, ok := in.(*ssa.UnOp)
+				if !ok || u.Op != token.MUL {
+					return
+				}
+				recv, ok := isTo(u.X)
+				if !ok {
+					return
+				}
+				nD++
+				_, ne := condEdges(fn, func(x, y ssa.Value) bool {
+					r2, ok := isTo(x)
+					return ok && r2 == recv && isNilConst(y)
+				})
+				w := PathQuery{Fn: fn, Target: func(x ssa.Instruction) bool { return x == in }, DelEdge: edgeSet(ne)}.Search()
+				r.Check(w == nil && len(ne) > 0, "R13", fmt.Sprintf("%s#To-dereferenced-under-guard", fnID(fn)), P.Pos(instrPos(in)), "dereferenced only where To() != nil",
+					"a message's To() is dereferenced without a nil test: for a contract creation the node panics at this point — if the code runs only under a node-local setting (a tracer kind), that node alone reports the transaction as failed and its app hash diverges", sc.S.Chain(fn)...)
+			})
+		}
+		r.Floor("R13", "dereferences of a message's To() in consensus scope", nD, 1)
+	}
 	runDetControls(r)
 	_ = P
 }
